@@ -213,6 +213,23 @@ def oracle(chk: C.Check, r, thorough: bool) -> tuple[int, int, list]:
             n += 1
             if got[0] != "T" or not got[1].endswith("=OUT"):
                 chk.finding("oracle:shadowed-name-not-restored", f"{src!r} gave {got}", {"source": src, "got": got})
+    # lambda parameters (scope pushed inside a generator that a filter may abandon early)
+    xs = {"xs": [1, 2, 3], "hs": [{"k": 1}, {"k": 2}]}
+    lam_cases = []
+    for x in ["x", "a"]:
+        for f, cond in [("find", f"{x} == 2"), ("find", f"{x} == 9"), ("has", f"{x} == 1"), ("has", f"{x} == 9"),
+                        ("find_index", f"{x} == 3"), ("where", f"{x} > 1"), ("reject", f"{x} > 1"), ("map", f"{x}")]:
+            lam_cases.append((f"{{% assign {x} = 'OUT' %}}{{% assign r = xs | {f}: {x} => {cond} %}}={{{{ {x} }}}}", {}))
+            lam_cases.append((f"{{% assign {x} = 'OUT' %}}{{% for q in (1..2) %}}{{% assign r = xs | {f}: {x} => {cond} %}}{{% endfor %}}={{{{ {x} }}}}", {}))
+            # inside an included partial: the include's own argument must not leak either
+            lam_cases.append((f"{{% assign {x} = 'OUT' %}}{{% assign kk = 'OUT' %}}{{% include 'lp', kk: 'K' %}}={{{{ {x} }}}}={{{{ kk }}}}",
+                              {"lp": f"{{% assign r = xs | {f}: {x} => {cond} %}}"}))
+    for src, ld in lam_cases:
+        got = render(src, ld, xs)
+        n += 1
+        want_tail = "=OUT=OUT" if "kk" in src else "=OUT"
+        if got[0] != "T" or not got[1].endswith(want_tail):
+            chk.finding("oracle:lambda-parameter-leaks", f"{src!r} gave {got}", {"source": src, "loader": ld, "data": xs, "got": got})
     # ... also when the construct is left through an error: the context is balanced
     err_cases = [
         "{% for i in (1..3) %}{% with a: 1 %}{% if 1 < 'x' %}{% endif %}{% endwith %}{% endfor %}",
